@@ -15,14 +15,17 @@ Desc(S) == SetToSortSeq(S, >)
 Carriers == {"field", "newtype", "vfield", "alias", "const"}
 Wrappers == {"direct", "vec", "option", "mapk", "mapv", "array", "slice", "garg", "garg_unknown", "garg_nested"}
 BKinds == {"struct", "unit_enum", "tagged_enum", "alias"}
-NoProg == [carrier |-> "", wrapper |-> "", renamed |-> FALSE, bkind |-> "", ovr |-> "", bname |-> ""]
+NoProg == [carrier |-> "", wrapper |-> "", renamed |-> FALSE, bkind |-> "", ovr |-> "", bname |-> "", twin |-> FALSE]
 \* two-item programs A -> B: one reference, written in every carrier x container x (B renamed?) x kind of B
 \* ovr: the referencing field carries a #[typeshare(<lang>(type = ".."))] override for ANOTHER language than the
 \* generated one ("scala" / "typescript"); the reference is still written in the generated language, so P still orders it
 \* bname: how B is spelled - UpperCamel, a C-style lower_snake name (handle_t), or with a leading underscore; the order
 \* constraint does not depend on the spelling of a name
 Progs == {p \in [carrier : Carriers, wrapper : Wrappers, renamed : BOOLEAN, bkind : BKinds, ovr : {"none", "scala", "typescript"},
-                 bname : {"upper", "lower_snake", "underscore"}] :
+                 bname : {"upper", "lower_snake", "underscore"}, twin : BOOLEAN] :
+             \* twin: two more, unreferenced items that share ONE Rust identifier (the second in a module of its own, told apart by
+             \* serde(rename)): the emitted definitions are a permutation of ALL parsed items - neither twin may be dropped
+             /\ p.twin => (p.bkind = "struct" /\ p.bname = "upper" /\ p.ovr = "none" /\ ~p.renamed)
              /\ p.carrier = "const" => p.wrapper \in {"direct", "array"}
              /\ p.ovr # "none" => p.carrier \in {"field", "vfield"}
              /\ p.bname # "upper" => (~p.renamed /\ p.ovr = "none")}
